@@ -375,7 +375,7 @@ func (vc *VC) havocIface(st *State, short string) {
 		st.ghost[tr] = vc.decl(sanitize(tr), srt)
 	}
 	for name, srt := range vc.eng.monSorts {
-		if vc.eng.monIface[name] == short && vc.eng.monMode[name] == vc.mode.String() {
+		if vc.eng.monIface[name] == short && vc.monActive(name) {
 			vc.ghostTerm(st, name, srt, "")
 			st.ghost[name] = vc.decl(sanitize(name), srt)
 		}
